@@ -779,6 +779,9 @@ func brScenarios(tier string) []engine.Scenario {
 				if !thorough && (extra || pr[1] == 7 || pr[0] == pr[1]) && (h == 2 || h == n/4) {
 					continue // quick: extreme weights only for the extra variants, the largest pair and the equal pairs
 				}
+				if thorough && extra && pr[1] == 7 && (h == 2 || h == n/4) {
+					continue // thorough: the extra variants on the largest pair with the extreme weights
+				}
 				leaves := brLeaves(n, 1<<pr[1])
 				scs = append(scs, brKeyScenario(brConfig{pr[0], pr[1], v, h, -1, 1, 0}))
 				if h == 1 || h == n/2 {
@@ -788,6 +791,9 @@ func brScenarios(tier string) []engine.Scenario {
 				for ii, iv := range ivs {
 					if !thorough && (ii == 3 || (ii >= 1 && (extra || pr[0] == pr[1])) || (ii == 2 && !small)) {
 						continue // quick: [0,2] never; extra variants and equal pairs on [-1,1] only; [-1,3] on small rings
+					}
+					if thorough && extra && pr[1] == 7 && (ii == 1 || ii == 3) {
+						continue // thorough: the extra variants on the largest pair with [-1,1] and [-1,3]
 					}
 					for li := range leaves {
 						if !thorough && ii == 2 && li != 0 && li != len(leaves)-1 {
@@ -864,7 +870,8 @@ func brKeyScenario(cf brConfig) engine.Scenario {
 //  2. a new evaluator gets a key set holding the RGSW keys and only those Galois keys (its list is truthful): the
 //     evaluation must succeed and return the same bits;
 //  3. the remaining Galois keys are added to that key set and a second sample is evaluated on the same evaluator: same
-//     bits as a fresh evaluator with the complete set.
+//     bits as a fresh evaluator with the complete set;
+//  4. the same evaluator is then given the key set of a different blind-rotation secret.
 func brGrowScenario(cf brConfig) engine.Scenario {
 	name := fmt.Sprintf("brgrow/%s/NLWE=%d/NBR=%d/h=%d", cf.v.name, 1<<cf.logNLWE, 1<<cf.logNBR, cf.h)
 	return engine.Scenario{Name: name, Bound: -1, Fn: func(c *engine.Chooser) {
@@ -954,7 +961,18 @@ func brGrowScenario(cf brConfig) engine.Scenario {
 			c.Fail("C20/blindrot/keyset/grown-set/"+cf.v.name, "%s slots %v: after %d Galois keys were added to the key set of a used evaluator the evaluation fails or differs from a fresh evaluator: err=%v/%v missing=%v",
 				name, slots, len(later), err2, err3, growing.missing)
 		}
-		c.Count(4 * len(slots))
+		// 4. the same evaluator is handed a different key set: keys of a second blind-rotation secret. Nothing of the
+		// first set may survive inside the evaluator: same bits as a fresh evaluator with the second set.
+		skBR2 := rlwe.NewKeyGenerator(br).GenSecretKeyNew()
+		sBR2, _ := secretInts(br, skBR2)
+		second, _ := brKeys(c, cf, lwe, br, skLWE, skBR2, sLWE, sBR2)
+		got3, err4 := eval.Evaluate(ct1, tpm, second)
+		ref3, err5 := blindrot.NewEvaluator(br, lwe).Evaluate(ct1, tpm, newRecKeySet(second.brk, second.gkList))
+		if err4 != nil || err5 != nil || !equal(got3, ref3) {
+			c.Fail("C20/blindrot/keyset/switched-set/"+cf.v.name, "%s slots %v: a used evaluator given the key set of another secret fails or differs from a fresh evaluator: err=%v/%v missing=%v",
+				name, slots, err4, err5, second.missing)
+		}
+		c.Count(6 * len(slots))
 		c.Cover("brgrow", cf.v.name)
 		c.Outcome(name, len(needed), len(later))
 		c.Note("slots %v: %d Galois keys needed by the first sample, %d added later", slots, len(needed), len(later))
